@@ -4,6 +4,9 @@ Top-level contract of stabilizer_circuits.get_preparation_circuit (transcribed f
     pre : valid stabilizer on n = 2..6 qubits, (n, connectivity) advertised
     post: C|0..0> is the +1 eigenstate of every given signed Pauli   <=>  each given Pauli lies, with sign +, in the
           signed group <C Z_i C^dagger> (independent tableau oracle); never raises; argument unmodified
+Sign step for ALL sign vectors: hv/contracts/signstep.py interprets rotate_stabilizer_into_state / synth_circuit_from_stabilizers with symbolic sign bits against
+contract stubs of the qiskit names they use (Q1-Q3 through the oracle); the postcondition is an XOR-affine identity in the sign bits.  One run per (configuration,
+generator list): all groups for n<=4, every class with seeded members for n=5,6.  The stubs are validated on every case against the real qiskit run at two sign vectors.
 Decomposition (DESIGN 5): the sign-free pipeline is covered for ALL valid inputs by C06 (class id), C17 (table entry),
 C16 (layer search sound+complete, gate word), lemma K4; the sign step (rotate_stabilizer_into_state /
 synth_circuit_from_stabilizers - qiskit object manipulation, no contract within reach gives those objects semantics) is decided
@@ -26,6 +29,55 @@ def route_of(ctx):
     return f
 
 
+def sign_step(ctx):
+    """rotate_stabilizer_into_state + synth_circuit_from_stabilizers interpreted with symbolic sign bits against contract stubs of qiskit (Q1-Q3):
+    one run per (configuration, generator list) covers ALL 2^n sign vectors"""
+    import random
+    from ..contracts import signstep
+    from ..core import SYM, PROVED, REFUTED, UNKNOWN
+    import htstabilizer.rotate_stabilizer_into_state as rot
+    for f in (rot.rotate_stabilizer_into_state, rot._rotate_stabilizer_into_state_circuit, rot.synth_circuit_from_stabilizers):
+        ctx.under_contract(f)
+    rnd = random.Random(ctx.seed + 101)
+    jobs, tags = [], []
+    from ..oracle import docs
+    for n, conn in docs.ADVERTISED:
+        if n <= 4:
+            for key in G.all_groups(n):
+                rows = G.rows_from_key(n, key)
+                if rnd.random() < 0.5:
+                    rows = e2e.generator_changes(n, rows, rnd, 1)[0]
+                jobs.append((n, conn, rows, "all-groups"))
+                tags.append(("all_groups_n_le_4", True))
+        else:
+            members = (3 if n == 5 else 2) if ctx.quick else (30 if n == 5 else 10)
+            orbit_of, reps = G.orbit_table(n)
+            for gid in reps:
+                rows0 = [(x, z) for x, z, _ in G.graph_state_gens(n, G.adj_from_id(n, gid))]
+                for mem in range(members):
+                    rows = rows0 if mem == 0 else e2e.generator_changes(n, G.apply_layer_unsigned(n, rows0, [rnd.randrange(6) for _ in range(n)]), rnd, 1)[0]
+                    jobs.append((n, conn, rows, "members"))
+                    tags.append((f"class_members_n{n}", False))
+    chunks = core.chunked(list(range(len(jobs))), 256)
+    res = core.pmap(lambda idxs: [signstep.sign_step_job(jobs[i]) for i in idxs], chunks, chunks=1)
+    flat = [r for ch in res for r in ch]
+    for (tag, exh), recs in zip(tags, flat):
+        for famname, ok, key, what, rp in recs:
+            fam = ctx.family(f"{famname}.{tag}", SYM, "pyvc+contract-stubs+normal-form",
+                             "for ALL 2^n sign vectors of the generator list: every requested signed Pauli lies in the signed stabilizer group of the returned circuit; no exception")
+            fam.exhaustive = True
+            fam.domain = ("every stabilizer group for n<=4 on every configuration (one generating set each)" if exh else
+                          "every class of every 5/6-qubit configuration, seeded members and generating sets") + " x ALL sign vectors (symbolic)"
+            if ok is None:
+                ctx.record(fam, UNKNOWN, rp if fam.total < 2 else None)
+                ctx.undecide(fam, what)
+            else:
+                ctx.record(fam, PROVED if ok else REFUTED, rp if fam.total < 2 else None)
+                if not ok:
+                    ctx.violate(fam, key, what, rp)
+    ctx.extra["sign_step_cases"] = len(jobs)
+
+
 def run(ctx: core.Ctx):
     import htstabilizer.stabilizer_circuits as sc
     import htstabilizer.rotate_stabilizer_into_state as rot
@@ -35,6 +87,7 @@ def run(ctx: core.Ctx):
     ctx.selfcheck["oracle_gate_rules_checked_densely"] = P.selftest()
     from .. import prereq, symrun
     prereq.pipeline_contracts(ctx)       # glue code (all n), layer-search segment contracts (all inputs), purity of the pipeline functions
+    sign_step(ctx)
     jobs, desc = e2e.build_jobs(ctx, parts=("prep",))
     t = time.time()
     results = core.pmap(e2e.eval_state, jobs)
